@@ -24,3 +24,10 @@ pub fn opt_as_str(o: &Option<String>) -> (r: Option<&str>) ensures (o is Some) =
 pub assume_specification<T, E> [core::result::Result::<T, E>::unwrap_or] (r: core::result::Result<T, E>, default: T) -> (o: T)
     ensures o == (match r { Ok(v) => v, Err(_) => default });
 pub assume_specification<P: std::str::pattern::Pattern> [str::replace] (_0: &str, _1: P, _2: &str) -> String;
+// str::trim family: the result is some (uninterpreted) substring, never longer than the argument
+pub uninterp spec fn str_trim(s: Seq<char>) -> Seq<char>;
+pub uninterp spec fn str_trim_start(s: Seq<char>) -> Seq<char>;
+pub uninterp spec fn str_trim_end(s: Seq<char>) -> Seq<char>;
+pub assume_specification [str::trim] (s: &str) -> (r: &str) ensures r@ == str_trim(s@), r@.len() <= s@.len();
+pub assume_specification [str::trim_start] (s: &str) -> (r: &str) ensures r@ == str_trim_start(s@), r@.len() <= s@.len();
+pub assume_specification [str::trim_end] (s: &str) -> (r: &str) ensures r@ == str_trim_end(s@), r@.len() <= s@.len();
